@@ -46,11 +46,31 @@ def intervals(f):
                 idx = pat[1][0]
                 if idx[0] == "p_ident" and ln[1] != INF:
                     env[idx[1]] = (0, max(ln[1] - 1, 0))
+            if False:
+                pass
             if src[0] == "range" and pat[0] == "p_ident":
                 lo = interval(src[1], env, lens) if src[1] is not None else (0, 0)
                 hi = interval(src[2], env, lens) if src[2] is not None else (0, INF)
                 if hi[1] != INF:
                     env[pat[1]] = (lo[0], hi[1] - (0 if src[3] else 1))
+    # enumerate() indices bound by closure parameters: X.iter().enumerate().map(|(i, x)| ..) / .fold(init, |acc, (i, x)| ..)
+    for n in walk(f["body"]):
+        if n[0] == "mcall" and n[3] and n[3][-1][0] == "closure" and ".enumerate()" in show(n[1]):
+            clo = n[3][-1]
+            if not clo[1]:
+                continue
+            pat = clo[1][-1]
+            while pat[0] in ("p_ref", "p_type"):
+                pat = pat[2] if pat[0] == "p_ref" else pat[1]
+            if pat[0] == "p_tuple" and len(pat[1]) == 2 and pat[1][0][0] == "p_ident":
+                r = unblock(n[1])
+                # the receiver up to (and including) enumerate()
+                while r[0] == "mcall" and r[2] != "enumerate":
+                    r = unblock(r[1])
+                if r[0] == "mcall" and r[2] == "enumerate":
+                    ln = _iter_len(r[1], lens)
+                    if ln[1] != INF:
+                        env[pat[1][0][1]] = (0, max(ln[1] - 1, 0))
     return env, lens
 
 
